@@ -234,3 +234,47 @@ func replaceStrings(root any, old, new string) {
 	}
 	walk(reflect.ValueOf(root))
 }
+
+// nilZeroPtrs replaces every pointer to a zero-valued struct by nil (the statements do not
+// distinguish "absent" from "present but empty" for optional blocks).
+func nilZeroPtrs(root any) {
+	var walk func(v reflect.Value)
+	walk = func(v reflect.Value) {
+		switch v.Kind() {
+		case reflect.Ptr:
+			if v.IsNil() {
+				return
+			}
+			walk(v.Elem())
+			if v.Elem().Kind() == reflect.Struct && v.Elem().IsZero() && v.CanSet() {
+				v.Set(reflect.Zero(v.Type()))
+			}
+		case reflect.Interface:
+			if !v.IsNil() {
+				walk(v.Elem())
+			}
+		case reflect.Struct:
+			for i := 0; i < v.NumField(); i++ {
+				walk(v.Field(i))
+			}
+		case reflect.Slice:
+			for i := 0; i < v.Len(); i++ {
+				walk(v.Index(i))
+			}
+		case reflect.Map:
+			it := v.MapRange()
+			type kv struct{ k, v reflect.Value }
+			var upd []kv
+			for it.Next() {
+				e := reflect.New(v.Type().Elem()).Elem()
+				e.Set(it.Value())
+				walk(e)
+				upd = append(upd, kv{it.Key(), e})
+			}
+			for _, u := range upd {
+				v.SetMapIndex(u.k, u.v)
+			}
+		}
+	}
+	walk(reflect.ValueOf(root))
+}
